@@ -1,17 +1,3 @@
-//! Checks for the storage crates (seglog, sierradb, sierradb-protocol).
-
-mod conc;
-mod crash;
-mod dbx;
-mod pure;
-mod model;
-mod seglogx;
-mod store;
-mod storechecks;
-
-use vlib::Check;
-
 fn main() {
-    let checks: Vec<&dyn Check> = vec![&pure::C23, &pure::C25, &seglogx::C17, &seglogx::C18, &storechecks::C01, &storechecks::C02, &storechecks::C03, &storechecks::C19, &crash::C04, &crash::C05, &crash::C06, &conc::C15, &conc::C16, &conc::C20];
-    vlib::main_entry(&checks)
+    vlib::main_entry(&vstore::checks())
 }
